@@ -1,7 +1,7 @@
 (* Properties/C02.v -- Encoder output is a conformant ISO/IEC 16022 data codeword stream (the parts that are theorems). *)
 From Coq Require Import Arith NArith List Bool.
 From DM Require Import Generated.Symbols Generated.ModeTables Spec.GF256 Spec.RSCode Model.Outcome Model.SymbolList Model.Planner Model.Enc
-  Model.RSEnc Model.GF Model.PlannerRun Model.Api Proofs.SymbolListProofs Proofs.RSEncProofs Proofs.RSEncLen Proofs.EncLocal Proofs.EncTop Spec.Stream16022 Spec.Recognise Model.Dec Proofs.EncAscii Proofs.PlanAscii Proofs.EncB256 Proofs.DecScript Proofs.Certify.
+  Model.RSEnc Model.GF Model.PlannerRun Model.Api Proofs.SymbolListProofs Proofs.RSEncProofs Proofs.RSEncLen Proofs.EncLocal Proofs.EncTop Spec.Stream16022 Spec.Recognise Model.Dec Proofs.EncAscii Proofs.PlanAscii Proofs.EncB256 Proofs.DecScript Proofs.Certify Proofs.EncAB.
 Import ListNotations.
 Local Open Scope N_scope.
 
@@ -104,6 +104,25 @@ Theorem C02_base256_only_conformant : forall sorter data symbols cw s,
   exists script npad, script_ok script npad = true /\ cw = stream script npad /\ meaning script = data.
 Proof. intros so d sy cw s HS OK H. exact (proj1 (b256_only_roundtrip so d sy cw s HS OK H)). Qed.
 Print Assumptions C02_base256_only_conformant.
+
+(* full conformance for EVERY plan over ASCII and Base256 (any switch positions; the plan itself is not characterised),
+   hence for the crate's optimiser under every mode set within {ASCII, Base256}: the stream is a sequence of ASCII runs
+   and Base256 fields with explicit length -- the last field in the run-to-the-end form exactly when it fills the
+   symbol -- followed by the standard's padding *)
+Theorem C02_ab_plan_conformant : forall optimize_fn data symbols modes cw s,
+  (forall p, optimize_fn data 0 symbols modes = Ok (Some p) -> Forall (fun e => snd e = Ascii \/ snd e = Base256) p) ->
+  bytes_ok data = true ->
+  encode_data_internal optimize_fn data symbols None modes false false = Ok (cw, s) ->
+  exists script npad, script_ok script npad = true /\ cw = stream script npad /\ meaning script = data /\ Forall ab_seg script.
+Proof. intros o d sy m cw s HP OK H. exact (proj1 (ab_plan_roundtrip o d sy m HP cw s OK H)). Qed.
+Print Assumptions C02_ab_plan_conformant.
+
+Theorem C02_ascii_base256_conformant : forall sorter data symbols cw s,
+  (forall k l l', sorter symbols k l = Ok l' -> incl l' l) -> bytes_ok data = true ->
+  encode_data_internal (optimize_fn sorter) data symbols None 33 false false = Ok (cw, s) ->
+  exists script npad, script_ok script npad = true /\ cw = stream script npad /\ meaning script = data /\ Forall ab_seg script.
+Proof. intros so d sy cw s HS OK H. exact (proj1 (ascii_base256_roundtrip so d sy cw s HS OK H)). Qed.
+Print Assumptions C02_ascii_base256_conformant.
 
 (* (vi) for the other plans conformance is decided per output by a certificate whose check is proved sound here: the
    check run (extracted) on every stream the implementation produces accepts only if the stream is the rendering of a
